@@ -104,7 +104,12 @@ CORPUS = {
         input={"x": 9}, script={"f1": [{"ok": {"op": "tag"}, "delay": 0.0}]}),
 }
 
-QUICK = ["pass-task-pass", "two-tasks-and-wait", "choice-and-succeed", "task-retry-then-success", "task-catch",
+# started the "low-level" way: the client publishes the start event itself, naming only the machine and the execution
+CORPUS["raw-start-task-wait"] = dict(
+    definition=machine("A", A=T("f1", Next="W"), W={"Type": "Wait", "Seconds": 2, "Next": "B"}, B=T("f2", End=True)),
+    input={"x": 3}, script={"f1": [{"ok": OK, "delay": 1.0}], "f2": [{"ok": {"op": "tag"}, "delay": 1.0}]}, via="raw")
+
+QUICK = ["raw-start-task-wait", "pass-task-pass", "two-tasks-and-wait", "choice-and-succeed", "task-retry-then-success", "task-catch",
          "task-timeout-caught", "fail-state", "parallel-two-tasks", "parallel-end-with-wait", "map-tasks",
          "map-maxconcurrency", "map-batches-task-then-pass", "parallel-branch-fails", "map-batches-iterator-ends-in-parallel",
          "parallel-branch-ends-in-map", "parallel-in-parallel-then-task"]
@@ -115,8 +120,8 @@ def scenario(name, cfg=None, type_="STANDARD"):
     conf = {"policy": "canonical", "latency": "zero", "execution_ttl": 120}
     conf.update(cfg or {})
     return {"machines": {"m": {"definition": c["definition"], "type": type_, "family": "corpus:" + name}},
-            "executions": [{"machine": "m", "input": c["input"], "name": "e1"}], "script": c["script"],
-            "functions": sorted(c["script"]), "config": conf}
+            "executions": [dict({"machine": "m", "input": c["input"], "name": "e1"}, **({"via": c["via"]} if c.get("via") else {}))],
+            "script": c["script"], "functions": sorted(c["script"]), "config": conf}
 
 
 # nested fan-out failure scenarios (hand written; they hold on the repaired tree under every schedule policy)
